@@ -11,14 +11,17 @@ Inductive c12op :=
 | XAckOp (cid op pl : N) (o_err : bool) (o_pub : option pubobs)
 | XAckSr (cid sr : N) (sts : list N) (o_err : bool) (o_pub : option pubobs)
 | XRestart (o_files : list N) (o_cur : option snapobs)
-| XLoseRemoves (b : bool).   (* fault injection: from now on the Remove calls of this process do not reach storage *)
+| XLoseRemoves (b : bool)    (* fault injection: from now on the Remove calls of this process do not reach storage *)
+| XRestartFrom (id : N) (o_files : list N) (o_cur : option snapobs)   (* new Store with the SavepointURI of savepoint id *)
+| XAbort.
 
 Inductive c13step :=
-| YPub (o_id : N)
-| YW (i : N) (o_id : option N)
+| YPub (n : N) (sp : bool) (o_id : N)                 (* checkpoint (savepoint if sp) with n split states *)
+| YW (i : N) (o_id : option N) (o_tag : N)            (* o_tag: split states decoded from the file READ BACK after the write *)
 | YR (i : N) (o_ids : option (list N))
 | YT (o_note : option (list N))
-| YCrash (o_files : list N) (o_loaded : option N).
+| YCrash (o_files : list N) (o_loaded : option N) (o_ltag : N)
+| YRewind (sp : N) (o_files : list N) (o_loaded : option N) (o_ltag : N).   (* new Store started from savepoint sp *)
 
 Inductive case :=
 | C12 (ops : list c12op)
@@ -54,6 +57,8 @@ Definition action_of (o : c12op) : action :=
   | XAckSr cid sr sts _ _ => AAckSr cid sr sts
   | XRestart _ _ => ARestart
   | XLoseRemoves b => ALoseRemoves b
+  | XRestartFrom id _ _ => ARestartFrom id
+  | XAbort => AAbort
   end.
 Definition result_of (o : c12op) : result :=
   match o with
@@ -63,6 +68,8 @@ Definition result_of (o : c12op) : result :=
   | XAckSr _ _ _ e p => RAck e p
   | XRestart f c => RRestart f c
   | XLoseRemoves _ => RFault
+  | XRestartFrom _ f c => RRestart f c
+  | XAbort => RFault
   end.
 
 Definition cmp_result (model obs : result) : list N :=
@@ -111,15 +118,19 @@ Definition check_c12 (ops : list c12op) : list N :=
 
 (* ---------- C13 ---------- *)
 Definition hstep_of (y : c13step) : hstep :=
-  match y with YPub _ => HPub | YW i _ => HW i | YR i _ => HR i | YT _ => HT | YCrash _ _ => HCrash end.
+  match y with
+  | YPub _ _ _ => HPub | YW i _ _ => HW i | YR i _ => HR i | YT _ => HT | YCrash _ _ _ => HCrash
+  | YRewind sp _ _ _ => HRewind sp
+  end.
 
 Definition cmp_hobs (model : hobs) (obs : c13step) : list N :=
   match model, obs with
-  | OPub a, YPub b => if a =? b then [] else [21]
-  | OW a, YW _ b => if optN_eqb a b then [] else [22]
+  | OPub a, YPub _ _ b => if a =? b then [] else [21]
+  | OW a, YW _ b _ => if optN_eqb a b then [] else [22]
   | OR a, YR _ b => if opt_eqb set_eqb a b then [] else [23]
   | OT a, YT b => if opt_eqb listN_eqb a b then [] else [24]
-  | OCrash l a, YCrash f b => (if listN_eqb l f then [] else [25]) ++ (if optN_eqb a b then [] else [26])
+  | OCrash l a, YCrash f b _ => (if listN_eqb l f then [] else [25]) ++ (if optN_eqb a b then [] else [26])
+  | OCrash l a, YRewind _ f b _ => (if listN_eqb l f then [] else [25]) ++ (if optN_eqb a b then [] else [26])
   | _, _ => [29]
   end.
 Fixpoint cmp_hobss (ms : list hobs) (os : list c13step) : list N :=
@@ -136,25 +147,48 @@ Fixpoint increasing (l : list N) : bool :=
   | _ => true
   end.
 
-(* spec on the observed schedule: [wr] ids written so far on this storage, [notes] ids announced in this
-   store lifetime (newest first) *)
-Fixpoint spec_sched (wr notes : list N) (steps : list c13step) : list N :=
+(* spec on the observed schedule.  [tl]: ids written in the current timeline (after a crash: the files present;
+   after a start from a savepoint: none yet - the savepoint lives in its artifact, its checkpoint file may be gone); [wr]: every id ever written; [notes]: ids announced in this store
+   lifetime (newest first); [pubs]: id -> 2*n+sp of the created checkpoints; [cont]: id -> tag of the last write
+   (LocalDirectory.Write replaces the content); [spc]: id -> tag of the savepoint artifact *)
+Record sst := MkSst { z_tl : list N; z_wr : list N; z_notes : list N;
+                      z_pubs : list (N * N); z_cont : list (N * N); z_spc : list (N * N) }.
+
+Definition tag_ok (expected : option N) (t : N) : bool :=
+  match expected with Some e => e =? t | None => true end.
+
+Fixpoint spec_sched (z : sst) (steps : list c13step) : list N :=
   match steps with
   | [] => []
-  | YW _ (Some n) :: r => spec_sched (n :: wr) notes r
+  | YPub n sp id :: r =>
+      spec_sched (MkSst (z_tl z) (z_wr z) (z_notes z) (write_file id (2 * n + (if sp then 1 else 0)) (z_pubs z)) (z_cont z) (z_spc z)) r
+  | YW _ (Some id) tag :: r =>
+      let e := file_tag id (z_pubs z) in
+      let n := match e with Some v => v / 2 | None => tag end in
+      let sp := match e with Some v => v mod 2 =? 1 | None => false end in
+      (if tag =? n then [] else [107]) ++
+      spec_sched (MkSst (id :: z_tl z) (id :: z_wr z) (z_notes z) (z_pubs z) (write_file id n (z_cont z))
+                        (if sp then write_file id n (z_spc z) else z_spc z)) r
   | YR _ (Some ids) :: r =>
-      (if negb (is_nil wr) && mem (list_max wr) ids then [102] else []) ++ spec_sched wr notes r
+      (if negb (is_nil (z_tl z)) && mem (list_max (z_tl z)) ids then [102] else []) ++ spec_sched z r
   | YT (Some note) :: r =>
-      (if forallb (fun n => mem n wr) note then [] else [106]) ++
-      (match note, notes with
+      (if forallb (fun n => mem n (z_wr z)) note then [] else [106]) ++
+      (match note, z_notes z with
        | [n], p :: _ => if p <? n then [] else [103]
        | [n], [] => []
        | _, _ => [103]
-       end) ++ spec_sched wr (note ++ notes) r
-  | YCrash fs ld :: r =>
+       end) ++ spec_sched (MkSst (z_tl z) (z_wr z) (note ++ z_notes z) (z_pubs z) (z_cont z) (z_spc z)) r
+  | YCrash fs ld ltag :: r =>
       (if optN_eqb ld (max_opt fs) then [] else [101]) ++
-      (if is_nil wr || mem (list_max wr) fs then [] else [102]) ++ spec_sched wr [] r
-  | _ :: r => spec_sched wr notes r
+      (if is_nil (z_tl z) || mem (list_max (z_tl z)) fs then [] else [102]) ++
+      (match ld with Some l => if tag_ok (file_tag l (z_cont z)) ltag then [] else [108] | None => [] end) ++
+      spec_sched (MkSst fs (z_wr z) [] (z_pubs z) (z_cont z) (z_spc z)) r
+  | YRewind s fs ld ltag :: r =>
+      (if optN_eqb ld (Some s) then [] else [109]) ++
+      (if is_nil (z_tl z) || mem (list_max (z_tl z)) fs then [] else [102]) ++
+      (if tag_ok (file_tag s (z_spc z)) ltag then [] else [108]) ++
+      spec_sched (MkSst [] (z_wr z) [] (z_pubs z) (z_cont z) (z_spc z)) r
+  | _ :: r => spec_sched z r
   end.
 
 Definition check_case (c : case) : list N :=
@@ -172,7 +206,8 @@ Definition check_case (c : case) : list N :=
       cmp_hobss os steps ++
       (if listN_eqb (inflW s) ew && list_eqb set_eqb (pend_rm s) er
           && nll_eqb (match nhold s with Some n => [[n]] | None => [] end) et then [] else [27]) ++
-      spec_sched (if base =? 0 then [] else [base]) [] steps
+      spec_sched (MkSst (if base =? 0 then [] else [base]) (if base =? 0 then [] else [base]) []
+                        [] (if base =? 0 then [] else [(base, 0)]) []) steps
   end.
 
 Definition run (cases : list (N * case)) : list (N * N) :=
